@@ -303,7 +303,7 @@ func GenOp(t *rapid.T, p *Profile, kind string, nAcc int) Op {
 		if oneIn(t, 4, "durRand") {
 			op.M = rapid.Uint64Range(60, 5000).Draw(t, "durLit")
 		}
-		op.Amt = pick(t, []string{"0", "0", "1", "7"}, "rem")
+		op.Amt = pick(t, []string{"0", "0", "1", "7", "-1", "-2", "-4"}, "rem") // deposit = rate x duration + remainder (just above / just below a whole number of seconds)
 		if oneIn(t, 10, "rawRecv") {
 			op.Peer = nAcc + uniRange(t, 0, 5, "rawPeer")
 		}
@@ -315,7 +315,7 @@ func GenOp(t *rapid.T, p *Profile, kind string, nAcc int) Op {
 	case StrTopUp:
 		op.Ref = genRef(t, p)
 		op.M = pick(t, []uint64{1, 10, 60, 3600, 9223372037, 0}, "extDur")
-		op.Amt = pick(t, []string{"0", "0", "1"}, "rem")
+		op.Amt = pick(t, []string{"0", "0", "1", "-1", "-3"}, "rem")
 		op.Rule = pick(t, []int{0, 0, 0, 0, 1, 7}, "tuRule")
 		if op.Rule == 1 {
 			op.Amt = genAmount(t, p.BigAmounts, "tuAmt")
